@@ -47,17 +47,13 @@ func zzC08serve(n int) (*msg.MerkleBlock, []uint32, []common.Uint256, []bool) {
 	return mb, idx, ids, want
 }
 
-// ZZ_C08_complete: for every transaction count 1..5 (7 thorough) and every
+// ZZ_C08_complete: for every transaction count 1..7 and every
 // match pattern, the served merkle block verifies against the block's merkle
 // root and yields exactly the matched transaction ids in block order; every
 // watched transaction is among them; and the single-transaction branch derived
 // from the merkle block recomputes the root.
 func ZZ_C08_complete() {
-	nmax := 5
-	if nd.Tier() > 0 {
-		nmax = 7
-	}
-	n := nd.Choose("transactions", nmax) + 1
+	n := nd.Choose("transactions", 7) + 1
 	mb, idx, ids, want := zzC08serve(n)
 	var got []*common.Uint256
 	var err error
